@@ -1,7 +1,7 @@
 (* Evaluation of the C18 model on harness-written cases (correspondence check). *)
 From Coq Require Import List NArith ZArith String Bool.
 From V.Base Require Import Hex.
-From V.C18 Require Import Model.
+From V.C18 Require Import Model Ledger.
 Import ListNotations.
 Local Open Scope Z_scope.
 
@@ -10,6 +10,7 @@ Definition zp (h : string) : Z := fold_left (fun a b => a * 256 + Z.of_N b) (unh
 Definition zn (h : string) : Z := - zp h.
 
 Inductive obs := OOk (z : Z) | OErr (code : Z).
+Inductive ftobs := FOk (slot_after ret : Z) (ok : bool) (ledger : Z) | FPanic.
 
 Inductive case :=
 | CParse (h : string) (d : Z) (o : obs)        (* strToBigInt(s, d) *)
@@ -17,7 +18,28 @@ Inductive case :=
 | CBStr (n : Z) (h : string)                   (* BigIntToStr(n) *)
 | CErc (n : Z) (d : Z) (o : obs)               (* FormatDecimalForERC20(n, d) *)
 | CRocket (n : Z) (d : Z) (o : obs)            (* FormatDecimalForRocket(n, d) *)
+| CBind (pos dec : Z) (rawP rawD : string) (found : bool) (gotPos gotDec : Z)   (* AddERC20Binding(pos, dec); stored entries p, d; GetERC20Binding *)
+| CBindSys (is_sub : bool) (gotPos gotDec : Z)                                 (* GetERC20Binding("SYSTEM-RPG") *)
+| CFT (dstored slot op n : Z) (o : ftobs)                                      (* Get/Set/Add/SubFT on a coin bound with dstored decimals *)
 | CConst (prec md pbase dec base : Z).         (* constants read from the Go source: ParseFloat(s, pbase, prec, md), defaultDecimal, baseNumber *)
+
+(* account database, ERC20-bound coins (Ledger.v) *)
+Definition op_of (c : Z) : ftop := if c =? 0 then OpGet else if c =? 1 then OpSet else if c =? 2 then OpAdd else OpSub.
+
+Definition check_bind (pos dec : Z) (rawP rawD : string) (found : bool) (gotPos gotDec : Z) : bool :=
+  let '(_, ep, ed) := encode_binding (Binding [] pos dec) in
+  let b := decode_binding [] (unhex rawP) (unhex rawD) in
+  found && bytes_eqb ep (unhex rawP) && bytes_eqb ed (unhex rawD) &&
+  (b_position b =? gotPos) && (b_decimal b =? gotDec) && (gotPos =? pos) && (gotDec =? dec).
+
+Definition check_ft (dstored slot op n : Z) (o : ftobs) : bool :=
+  match ft_step dstored slot (op_of op) n, o with
+  | Ok (s', r, k), FOk sa ret ok ledger =>
+      (s' =? sa) && (r =? ret) && Bool.eqb k ok &&
+      match ledger_view dstored s' with Ok l => l =? ledger | Err _ => false end
+  | Err EUnsupported, _ => true
+  | _, _ => false
+  end.
 
 Definition mode_code (m : mode) : Z :=
   match m with ToNearestEven => 0 | ToNearestAway => 1 | ToZero => 2 | AwayFromZero => 3 | ToNegativeInf => 4 | ToPositiveInf => 5 end.
@@ -37,6 +59,10 @@ Definition check (c : case) : bool :=
   | CBStr n h => bytes_eqb (bigint_to_str n) (unhex h)
   | CErc n d o => chk_res (format_erc20 n d) o
   | CRocket n d o => chk_res (format_rocket n d) o
+  | CBind pos dec rawP rawD found gotPos gotDec => check_bind pos dec rawP rawD found gotPos gotDec
+  | CBindSys is_sub gotPos gotDec =>
+      let b := system_binding is_sub [] in (b_position b =? gotPos) && (b_decimal b =? gotDec)
+  | CFT dstored slot op n o => check_ft dstored slot op n o
   | CConst prec md pbase dec base =>
       (prec =? code_prec) && (md =? mode_code code_mode) && (pbase =? 10) && (dec =? default_decimal) && (base =? 10 ^ default_decimal)
   end.
